@@ -61,7 +61,7 @@ for c in checks:
     meta['checks_run'][c] = {'exit': r.returncode, 'violations': sum(1 for l in lines if l.startswith('VIOLATION')),
                              'first': first, 'wall_s': round(time.time() - t0, 1), 'tier': tier,
                              'stderr_tail': r.stderr[-300:] if r.returncode not in (0, 1) else ''}
-meta['caught_by'] = [c for c, v in meta['checks_run'].items() if v['exit'] == 1]
+meta['caught_by'] = [c for c, v in meta['checks_run'].items() if v['exit'] == 1 and v.get('violations', 1) > 0]
 dst = os.path.join(os.environ.get('SEED_META_DIR', '/verif/seeded'), sid)
 os.makedirs(dst, exist_ok=True)
 shutil.copy(patch, os.path.join(dst, 'patch.diff'))
@@ -69,13 +69,13 @@ shutil.copy(demo, os.path.join(dst, 'demo.py'))
 old = {}
 if os.path.exists(os.path.join(dst, 'meta.json')):
     old = json.load(open(os.path.join(dst, 'meta.json')))
-    for k in ('breaks', 'needs', 'description'):
+    for k in ('breaks', 'needs', 'description', 'baseline'):
         if k in old:
             meta[k] = old[k]
     prev = old.get('checks_run', {})
     prev.update(meta['checks_run'])
     meta['checks_run'] = prev
-    meta['caught_by'] = [c for c, v in prev.items() if v['exit'] == 1]
+    meta['caught_by'] = [c for c, v in prev.items() if v['exit'] == 1 and v.get('violations', 1) > 0]
 json.dump(meta, open(os.path.join(dst, 'meta.json'), 'w'), indent=1, sort_keys=True)
 shutil.rmtree(scratch, ignore_errors=True)
 print(sid, 'valid' if meta['valid'] else 'INVALID', 'tests', meta['tests_passed'], '/', meta['tests_failed'], 'demo', meta['demo_on_clean_exit'], '->',
